@@ -472,10 +472,10 @@ impl Feat {
     /// protocol text
     fn text(&self) -> String {
         match self {
-            Feat::D(u, i) => format!("d {} {}", u, fbits(*i)),
-            Feat::T(u, i) => format!("t {} {}", u, fbits(*i)),
-            Feat::E(u, i) => format!("e {} {}", u, fbits(*i)),
-            Feat::CF(t, u, i) => format!("c {} {} f {}", t, u, fbits(*i)),
+            Feat::D(u, i) => format!("d {} {}", u, i.to_bits()),
+            Feat::T(u, i) => format!("t {} {}", u, i.to_bits()),
+            Feat::E(u, i) => format!("e {} {}", u, i.to_bits()),
+            Feat::CF(t, u, i) => format!("c {} {} f {}", t, u, i.to_bits()),
             Feat::CI(t, u, i) => format!("c {} {} i {}", t, u, i),
             Feat::CU(t, u, i) => format!("c {} {} u {}", t, u, i),
             Feat::CB(t, u, i) => format!("c {} {} b {}", t, u, if *i { 1 } else { 0 }),
@@ -765,6 +765,7 @@ fn run_sm_kind(ctx: &mut Ctx, idx: usize, kind: &'static str, u: usize, feats: V
         5 => "sm_features_5",
         _ => "sm_features_6_plus",
     });
+    let precision: std::cell::RefCell<Vec<String>> = std::cell::RefCell::new(vec![]);
     let res = catch_unwind(AssertUnwindSafe(|| {
         let mut fails: Vec<(&'static str, String)> = vec![];
         let mut counts: Vec<&'static str> = vec![];
@@ -1015,14 +1016,17 @@ fn run_sm_kind(ctx: &mut Ctx, idx: usize, kind: &'static str, u: usize, feats: V
                                     }
                                 }
                                 (SmOp::SetCI(n, x), Feat::CI(..)) => {
-                                    // exact for integers a double represents exactly
-                                    if x.unsigned_abs() <= (1u64 << 53) && m.get_custom_i64(&st, n).ok() != Some(*x) {
-                                        fails.push(("state/roundtrip", format!("op #{} {}: get_custom_i64 returned {:?}", step, op.text(), m.get_custom_i64(&st, n).ok())));
+                                    // exact for integers a double represents exactly; beyond 2^53 the casts round
+                                    // (finding codec/integer-precision)
+                                    if m.get_custom_i64(&st, n).ok() != Some(*x) {
+                                        let msg = format!("op #{} {}: get_custom_i64 returned {:?}", step, op.text(), m.get_custom_i64(&st, n).ok());
+                                        if x.unsigned_abs() <= (1u64 << 53) { fails.push(("state/roundtrip", msg)); } else { precision.borrow_mut().push(msg); }
                                     }
                                 }
                                 (SmOp::SetCU(n, x), Feat::CU(..)) => {
-                                    if *x <= (1u64 << 53) && m.get_custom_u64(&st, n).ok() != Some(*x) {
-                                        fails.push(("state/roundtrip", format!("op #{} {}: get_custom_u64 returned {:?}", step, op.text(), m.get_custom_u64(&st, n).ok())));
+                                    if m.get_custom_u64(&st, n).ok() != Some(*x) {
+                                        let msg = format!("op #{} {}: get_custom_u64 returned {:?}", step, op.text(), m.get_custom_u64(&st, n).ok());
+                                        if *x <= (1u64 << 53) { fails.push(("state/roundtrip", msg)); } else { precision.borrow_mut().push(msg); }
                                     }
                                 }
                                 (SmOp::SetCB(n, x), Feat::CB(..)) => {
@@ -1054,6 +1058,9 @@ fn run_sm_kind(ctx: &mut Ctx, idx: usize, kind: &'static str, u: usize, feats: V
                 // a model built by `new` from a list with a repeated name: key of the defect repaired in 6da9498
                 let key = if dup_new { "container/new-duplicate-key" } else { key };
                 ctx.fail(idx, key, msg.clone());
+            }
+            if let Some(msg) = precision.borrow().first() {
+                ctx.fail(idx, "codec/integer-precision", msg.clone());
             }
         }
         Err(_) => {
@@ -1810,6 +1817,7 @@ fn trunc_u64(x: f64) -> u64 {
 fn run_feat(ctx: &mut Ctx, idx: usize, f: Feat, g: Feat, x: f64, i: i64, n: u64, b: bool) {
     // floats travel as raw bit patterns (NaN included)
     let case = format!("feat {} {} {} {} {} {}", f.text(), g.text(), x.to_bits(), i, n, if b { 1 } else { 0 });
+    let known: std::cell::RefCell<Vec<(&'static str, String)>> = std::cell::RefCell::new(vec![]);
     let res = catch_unwind(AssertUnwindSafe(|| {
         let mut fails: Vec<(&'static str, String)> = vec![];
         let sf = f.to_sf();
@@ -1892,8 +1900,12 @@ fn run_feat(ctx: &mut Ctx, idx: usize, f: Feat, g: Feat, x: f64, i: i64, n: u64,
             fails.push(("feature/eq", format!("{:?} == {:?} is {}", f, g, sf == sg)));
         }
         match &back {
-            Ok(b2) if feat_s(b2) == feat_s(&sf) || x_nan_feature(&f) => {}
-            other => fails.push(("feature/serde-roundtrip", format!("{:?} serialises to {} which reads back as {:?}", f, js, other.as_ref().map(feat_s).ok()))),
+            Ok(b2) if feat_s(b2) == feat_s(&sf) => {}
+            other => {
+                let msg = format!("{:?} serialises to {} which reads back as {:?}", f, js, other.as_ref().map(feat_s).ok());
+                // a non-finite initial value is written as null (finding feature/serde-nonfinite)
+                if x_nan_feature(&f) { known.borrow_mut().push(("feature/serde-nonfinite", msg)); } else { fails.push(("feature/serde-roundtrip", msg)); }
+            }
         }
         let names = ["floating_point", "signed_integer", "unsigned_integer", "boolean"];
         if fm.name() != names[fmt_kind as usize] || !format!("{}", fm).starts_with(&format!("{}: ", names[fmt_kind as usize])) || format!("{}", sf).is_empty() {
@@ -1929,8 +1941,9 @@ fn run_feat(ctx: &mut Ctx, idx: usize, f: Feat, g: Feat, x: f64, i: i64, n: u64,
                     fails.push(("codec/value", format!("decode_i64({}) = {:?}, truncation gives {}", x, dec_i.as_ref().ok(), trunc_i64(x))));
                 }
                 let e = enc_i.as_ref().ok().map(|v| v.0).unwrap_or(f64::NAN);
-                if i.unsigned_abs() <= (1u64 << 53) && (fm.decode_i64(&StateVar(e)).ok() != Some(i) || format!("{:.0}", e) != i.to_string()) {
-                    fails.push(("codec/value", format!("encode_i64({}) = {}", i, e)));
+                if fm.decode_i64(&StateVar(e)).ok() != Some(i) || format!("{:.0}", e) != i.to_string() {
+                    let msg = format!("encode_i64({}) = {}, decoded back as {:?}", i, e, fm.decode_i64(&StateVar(e)).ok());
+                    if i.unsigned_abs() <= (1u64 << 53) { fails.push(("codec/value", msg)); } else { known.borrow_mut().push(("codec/integer-precision", msg)); }
                 }
             }
             2 => {
@@ -1942,8 +1955,9 @@ fn run_feat(ctx: &mut Ctx, idx: usize, f: Feat, g: Feat, x: f64, i: i64, n: u64,
                     fails.push(("codec/value", format!("decode_u64({}) = {:?}, truncation gives {}", x, dec_u.as_ref().ok(), trunc_u64(x))));
                 }
                 let e = enc_u.as_ref().ok().map(|v| v.0).unwrap_or(f64::NAN);
-                if n <= (1u64 << 53) && (fm.decode_u64(&StateVar(e)).ok() != Some(n) || format!("{:.0}", e) != n.to_string()) {
-                    fails.push(("codec/value", format!("encode_u64({}) = {}", n, e)));
+                if fm.decode_u64(&StateVar(e)).ok() != Some(n) || format!("{:.0}", e) != n.to_string() {
+                    let msg = format!("encode_u64({}) = {}, decoded back as {:?}", n, e, fm.decode_u64(&StateVar(e)).ok());
+                    if n <= (1u64 << 53) { fails.push(("codec/value", msg)); } else { known.borrow_mut().push(("codec/integer-precision", msg)); }
                 }
             }
             _ => {
@@ -1965,6 +1979,13 @@ fn run_feat(ctx: &mut Ctx, idx: usize, f: Feat, g: Feat, x: f64, i: i64, n: u64,
             ctx.nontrivial(&case);
             if let Some((key, msg)) = fails.first() {
                 ctx.fail(idx, key, msg.clone());
+            }
+            let mut seen_keys: Vec<&'static str> = vec![];
+            for (key, msg) in known.borrow().iter() {
+                if !seen_keys.contains(key) {
+                    seen_keys.push(key);
+                    ctx.fail(idx, key, msg.clone());
+                }
             }
         }
         Err(_) => {
@@ -2010,6 +2031,10 @@ fn feat_cases(ctx: &mut Ctx) {
         Feat::CB(s("flag"), s("bool"), true),
         Feat::CF(s("distance"), s("miles"), -0.0),
         Feat::CI(s("soc"), s("percent"), (1i64 << 53) + 1),
+        // initial values JSON cannot carry
+        Feat::D(DistanceUnit::Feet, f64::NAN),
+        Feat::T(TimeUnit::Hours, f64::INFINITY),
+        Feat::CF(s("soc"), s("percent"), f64::NEG_INFINITY),
     ];
     let xs = [f64::NAN, -0.0, 2.5, -2.5, 0.5, 9007199254740993.0, 18446744073709551616.0, -1.0, f64::INFINITY, f64::NEG_INFINITY, 9223372036854775808.0];
     let mut k = 0usize;
@@ -2026,7 +2051,17 @@ fn feat_cases(ctx: &mut Ctx) {
     for _ in 0..n {
         let Some(idx) = ctx.begin() else { continue };
         let mut rng = Rng::for_case(ctx.seed, 11_000_011, idx as u64);
-        let f = gen_feat(&mut rng);
+        let mut f = gen_feat(&mut rng);
+        if rng.chance(3, 100) {
+            let bad = *rng.pick(&[f64::NAN, f64::INFINITY, f64::NEG_INFINITY]);
+            f = match f {
+                Feat::D(u, _) => Feat::D(u, bad),
+                Feat::T(u, _) => Feat::T(u, bad),
+                Feat::E(u, _) => Feat::E(u, bad),
+                Feat::CF(t, u, _) => Feat::CF(t, u, bad),
+                other => other,
+            };
+        }
         let g = if rng.chance(1, 3) {
             match &f {
                 Feat::CF(t, u, _) | Feat::CI(t, u, _) | Feat::CU(t, u, _) | Feat::CB(t, u, _) if rng.chance(1, 2) => Feat::CB(t.clone(), u.clone(), true),
@@ -2568,6 +2603,103 @@ fn sm_other_constructors(ctx: &mut Ctx) {
     }
 }
 
+// ---------------------------------------------------------------------------------------------
+// a `[state]` table of a TOML configuration, the way the application reads it
+// (CompassApp::try_from_config_toml_string -> config crate -> serde_json::Value -> StateModel::try_from)
+// ---------------------------------------------------------------------------------------------
+
+fn toml_row(f: &Feat) -> String {
+    let fl = |x: &f64| format!("{:?}", x);
+    match f {
+        Feat::D(u, i) => format!("{{ distance_unit = \"{}\", initial = {} }}", u, fl(i)),
+        Feat::T(u, i) => format!("{{ time_unit = \"{}\", initial = {} }}", u, fl(i)),
+        Feat::E(u, i) => format!("{{ energy_unit = \"{}\", initial = {} }}", u, fl(i)),
+        Feat::CF(t, u, i) => format!("{{ type = \"{}\", unit = \"{}\", format = {{ floating_point = {{ initial = {} }} }} }}", t, u, fl(i)),
+        Feat::CI(t, u, i) => format!("{{ type = \"{}\", unit = \"{}\", format = {{ signed_integer = {{ initial = {} }} }} }}", t, u, i),
+        Feat::CU(t, u, i) => format!("{{ type = \"{}\", unit = \"{}\", format = {{ unsigned_integer = {{ initial = {} }} }} }}", t, u, i),
+        Feat::CB(t, u, i) => format!("{{ type = \"{}\", unit = \"{}\", format = {{ boolean = {{ initial = {} }} }} }}", t, u, i),
+    }
+}
+
+/// the model side sees the table as the JSON object in declaration order
+fn run_tomlstate(ctx: &mut Ctx, idx: usize, dir: &std::path::Path, base_toml: &str, u: usize, rows: Vec<(String, Feat)>) {
+    let mut o = serde_json::Map::new();
+    for (n, f) in &rows {
+        o.insert(n.clone(), feat_json(f));
+    }
+    let case = format!("smjson {} {}", u, crate::jsonproto::enc(&serde_json::Value::Object(o)));
+    let mut toml = String::from(base_toml);
+    toml.push_str("\n[state]\n");
+    for (n, f) in &rows {
+        toml.push_str(&format!("{} = {}\n", n, toml_row(f)));
+    }
+    let res = catch_unwind(AssertUnwindSafe(|| crate::c06::build_app(dir, &toml)));
+    match res {
+        Ok(Ok(app)) => {
+            let m = &app.search_app.state_model;
+            ctx.emit(idx, case.clone(), norm(format!("ok {}", model_s(u, m))));
+            ctx.count("tomlstate_built");
+            if rows.len() >= 6 {
+                ctx.nontrivial(&case);
+            }
+            // the i-th declared row owns slot i
+            let got: Vec<String> = m.indexed_iter().map(|(_, (n, _))| n.clone()).collect();
+            let want: Vec<String> = rows.iter().map(|e| e.0.clone()).collect();
+            if got != want {
+                ctx.fail(idx, "state/config-order", format!("[state] rows declared as {:?} got the slots {:?}", want, got));
+            } else if let Some(f) = check_model(m, &rows, u) {
+                ctx.fail(idx, f.0, f.1);
+            }
+        }
+        Ok(Err(e)) => {
+            ctx.emit(idx, case, "err build".to_string());
+            ctx.count("tomlstate_rejected");
+            ctx.fail(idx, "state/tryfrom-rejects", format!("a well-formed [state] table was rejected: {}", e));
+        }
+        Err(_) => {
+            ctx.emit(idx, case, "panic".to_string());
+            ctx.fail(idx, "state/panic", "building the application panicked".to_string());
+        }
+    }
+}
+
+fn tomlstate_cases(ctx: &mut Ctx) {
+    let root = std::fs::canonicalize(".").unwrap_or_else(|_| std::path::PathBuf::from(".")).join(format!("work/c11_{}", std::process::id()));
+    let mut net_rng = Rng::new(ctx.seed ^ 0x11);
+    let net = crate::c06::gen_net(&mut net_rng, 6);
+    crate::c06::write_net(&root, &net);
+    let base = crate::c06::config_toml(&root, 1, crate::c06::Traversal::Distance, &[], false, false, None);
+    let f = |i: usize| format!("f{}", i);
+    let s = |x: &str| x.to_string();
+    // ---- corpus: six rows whose declaration order is neither alphabetical nor reversed
+    let six: Vec<(String, Feat)> = vec![
+        (f(4), Feat::D(DistanceUnit::Miles, 0.0)),
+        (f(1), Feat::T(TimeUnit::Minutes, 1.5)),
+        (f(5), Feat::E(EnergyUnit::KilowattHours, 60.0)),
+        (f(0), Feat::CF(s("soc"), s("percent"), 100.0)),
+        (f(3), Feat::CI(s("count"), s("n"), -3)),
+        (f(2), Feat::CB(s("flag"), s("bool"), true)),
+    ];
+    let corpus: Vec<(usize, Vec<(String, Feat)>)> = vec![(6, six.clone()), (6, six[..2].to_vec()), (6, six[2..5].to_vec()), (1, vec![]), (6, six[..1].to_vec())];
+    for (u, rows) in corpus {
+        let Some(idx) = ctx.begin() else { continue };
+        ctx.count("tomlstate_corpus");
+        run_tomlstate(ctx, idx, &root, &base, u, rows);
+    }
+    let n = ctx.n(60, 600);
+    for _ in 0..n {
+        let Some(idx) = ctx.begin() else { continue };
+        let mut rng = Rng::for_case(ctx.seed, 1_111_100, idx as u64);
+        let u = 2 + rng.below(11);
+        let mut names: Vec<usize> = (0..u).collect();
+        rng.shuffle(&mut names);
+        let k = match rng.below(4) { 0 => rng.below(3), _ => 2 + rng.below(u - 1) };
+        let rows: Vec<(String, Feat)> = names.iter().take(k).map(|i| (f(*i), gen_feat_json_safe(&mut rng))).collect();
+        run_tomlstate(ctx, idx, &root, &base, u, rows);
+    }
+    let _ = std::fs::remove_dir_all(&root);
+}
+
 pub fn run(ctx: &mut Ctx) -> &'static str {
     container_cases(ctx);
     sm_cases(ctx);
@@ -2576,5 +2708,6 @@ pub fn run(ctx: &mut Ctx) -> &'static str {
     smjson_cases(ctx);
     bsi_cases(ctx);
     sm_other_constructors(ctx);
-    "container: operation histories (empty/new/From/from_iter, then inserts of new keys and overwrites) over universes of 0..40 keys, every accessor observed after every operation; state model: 0..12 features of all seven kinds and all units built by new / from / empty / try_from(JSON) and extended, then initial_state / get / set / add / custom codecs / get_delta / serialize sequences, doubles compared bit-exactly; collect_features + extend with configured, traversal-model, access-model and query features (well-formed in every shape serde accepts, unknown names, other types, malformed); every StateFeature / CustomFeatureFormat method called directly on every kind with edge values (NaN, -0, .5, 2^53+1, 2^63, 2^64, infinities); StateFeature and [state] tables from JSON (accepted and rejected shapes); SearchApp::build_search_instance on query sequences against one application; non-trivial = distinct case in which the container (or a state model) holds 6 or more entries at some point, a direct feature / parse call, or a rejected table; distinct by full case text"
+    tomlstate_cases(ctx);
+    "container: operation histories (empty/new/From/from_iter, then inserts of new keys and overwrites) over universes of 0..40 keys, every accessor observed after every operation; state model: 0..12 features of all seven kinds and all units built by new / from / empty / try_from(JSON) and extended, then initial_state / get / set / add / custom codecs / get_delta / serialize sequences, doubles compared bit-exactly; collect_features + extend with configured, traversal-model, access-model and query features (well-formed in every shape serde accepts, unknown names, other types, malformed); every StateFeature / CustomFeatureFormat method called directly on every kind with edge values (NaN, -0, .5, 2^53+1, 2^63, 2^64, infinities); StateFeature and [state] tables from JSON (accepted and rejected shapes); SearchApp::build_search_instance on query sequences against one application; [state] tables of 0..12 rows in a TOML configuration read the way the application reads it (CompassApp::try_from_config_toml_string); non-trivial = distinct case in which the container (or a state model) holds 6 or more entries at some point, a direct feature / parse call, or a rejected table; distinct by full case text"
 }
